@@ -269,9 +269,25 @@ Qed.
 
 (* ssh1.ParsePrivateKey never panics, whatever the bytes and whatever 3DES returns:
    both slice expressions are behind the length check and CryptBlocks only sees whole blocks *)
-Lemma ssh1_parse_no_panic : forall dec data s, ssh1_parse dec data <> Panic s.
+Lemma ssh1_private_part_no_panic : forall l n e c r s, ssh1_private_part l n e c r <> Panic s.
 Proof.
-  intros dec data s. unfold ssh1_parse.
+  intros l n e c r s. unfold ssh1_private_part.
+  destruct (read_full 4 r) as [[abab r5]|e'|p'] eqn:E4; try discriminate.
+  destruct (negb _); [discriminate|].
+  set (ints := bind _ _).
+  assert (H : forall s', ints <> Panic s').
+  { intros s'. unfold ints.
+    apply bind_not_panic; [apply ssh1_read_mpint_raw_not_panic|].
+    intros [d r6] s6. apply bind_not_panic; [apply ssh1_read_mpint_raw_not_panic|].
+    intros [qi r7] s7. apply bind_not_panic; [apply ssh1_read_mpint_raw_not_panic|].
+    intros [q r8] s8. apply bind_not_panic; [apply ssh1_read_mpint_raw_not_panic|].
+    intros [p r9] s9. discriminate. }
+  destruct ints as [o|er|p]; [discriminate|destruct l; discriminate|exfalso; now apply (H p)].
+Qed.
+
+Lemma ssh1_parse_gen_no_panic : forall fixed dec data s, ssh1_parse_gen fixed dec data <> Panic s.
+Proof.
+  intros fixed dec data s. unfold ssh1_parse_gen.
   destruct (Nat.ltb (length data) (length ssh1_header)) eqn:El; [discriminate|].
   apply Nat.ltb_ge in El.
   unfold go_slice_to, go_slice_from.
@@ -287,20 +303,17 @@ Proof.
     destruct (Nat.eqb (Nat.modulo (length r3) 8) 0) eqn:Em; cbn [negb]; [|discriminate].
     unfold ssh1_decrypt. rewrite Em. discriminate. }
   intros [r4|] s5; [|discriminate].
-  destruct (read_full 4 r4) as [[abab r5]|e'|p'] eqn:E4; try discriminate.
-  destruct (negb _); [discriminate|].
-  apply bind_not_panic; [apply ssh1_read_mpint_raw_not_panic|].
-  intros [d r6] s6. apply bind_not_panic; [apply ssh1_read_mpint_raw_not_panic|].
-  intros [qi r7] s7. apply bind_not_panic; [apply ssh1_read_mpint_raw_not_panic|].
-  intros [q r8] s8. apply bind_not_panic; [apply ssh1_read_mpint_raw_not_panic|].
-  intros [p r9] s9. discriminate.
+  apply ssh1_private_part_no_panic.
 Qed.
 
+Lemma ssh1_parse_no_panic : forall dec data s, ssh1_parse dec data <> Panic s.
+Proof. intros. apply ssh1_parse_gen_no_panic. Qed.
+
 (* a key that was read at all has at least the header and nine more bytes *)
-Lemma ssh1_parse_ok_length : forall dec data o, ssh1_parse dec data = Ok o ->
+Lemma ssh1_parse_ok_length : forall fixed dec data o, ssh1_parse_gen fixed dec data = Ok o ->
   (length ssh1_header + 9 <= length data)%nat.
 Proof.
-  intros dec data o. unfold ssh1_parse.
+  intros fixed dec data o. unfold ssh1_parse_gen.
   destruct (Nat.ltb (length data) (length ssh1_header)) eqn:El; [discriminate|].
   unfold go_slice_to, go_slice_from. rewrite El. cbn [bind].
   destruct (negb _); [discriminate|].
@@ -312,12 +325,15 @@ Qed.
 Lemma ssh1_private_key_no_panic : forall fx dec data s, ssh1_private_key fx dec data <> Panic s.
 Proof.
   intros fx dec data s. unfold ssh1_private_key.
-  destruct (ssh1_parse dec data) as [o|e|p] eqn:E; cbn [bind]; [|discriminate|exfalso; now apply (ssh1_parse_no_panic dec data p)].
-  destruct o as [k|n e c]; [discriminate|].
-  destruct (fx_ssh1_enc fx); [|discriminate].
-  apply ssh1_parse_ok_length in E. unfold go_index.
-  destruct (Nat.ltb (length ssh1_header) (length data)) eqn:El; [|apply Nat.ltb_ge in El; lia].
-  cbn [bind]. destruct (_ =? 0); discriminate.
+  destruct (ssh1_parse_gen (fx_ssh1_cipher fx) dec data) as [o|e|p] eqn:E; cbn [bind];
+    [|discriminate|exfalso; now apply (ssh1_parse_gen_no_panic (fx_ssh1_cipher fx) dec data p)].
+  apply ssh1_parse_ok_length in E.
+  assert (Hi : exists c, go_index data (length ssh1_header) = Ok c).
+  { unfold go_index. destruct (Nat.ltb (length ssh1_header) (length data)) eqn:El; [eauto|apply Nat.ltb_ge in El; lia]. }
+  destruct Hi as [c Hi].
+  destruct o as [k|n e c'].
+  - destruct (fx_ssh1_cipher fx); [|discriminate]. rewrite Hi. discriminate.
+  - destruct (fx_ssh1_enc fx); [|discriminate]. rewrite Hi. cbn [bind]. destruct (_ =? 0); discriminate.
 Qed.
 
 (* parseKdfOptions after the repair: no slice expression can fail, for any window of any buffer *)
@@ -528,20 +544,22 @@ Qed.
 
 (* ---------- OpenSSH private key header ---------- *)
 
-Lemma ossh_unmarshal_enc : forall cipher kdf opts pub priv,
+Lemma ossh_unmarshal_enc : forall (tagged : bool) cipher kdf opts pub priv (tag : bytes),
   fits32 cipher -> fits32 kdf -> fits32 opts -> fits32 pub -> fits32 priv ->
-  ossh_unmarshal (ssh_string_enc cipher ++ ssh_string_enc kdf ++ ssh_string_enc opts ++
-                  N_to_be 4 1 ++ ssh_string_enc pub ++ ssh_string_enc priv)
+  length tag = (if tagged then ossh_auth_len cipher else 0%nat) ->
+  ossh_unmarshal tagged (ssh_string_enc cipher ++ ssh_string_enc kdf ++ ssh_string_enc opts ++
+                         N_to_be 4 1 ++ ssh_string_enc pub ++ ssh_string_enc priv ++ tag)
   = Ok (mk_ossh cipher kdf (length (ssh_string_enc cipher) + length (ssh_string_enc kdf) + 4) (length opts) 1 pub priv).
 Proof.
-  intros cipher kdf opts pub priv Hc Hk Ho Hp Hv. unfold ossh_unmarshal.
+  intros tagged cipher kdf opts pub priv tag Hc Hk Ho Hp Hv Ht. unfold ossh_unmarshal.
   rewrite match_nonempty by apply ssh_string_enc_nonempty.
   rewrite ssh_read_string_enc by exact Hc. cbv beta iota.
   rewrite ssh_read_string_enc by exact Hk. cbv beta iota.
   rewrite ssh_read_string_enc by exact Ho. cbv beta iota.
   rewrite ssh_read_u32_enc by lia. cbv beta iota.
   rewrite ssh_read_string_enc by exact Hp. cbv beta iota.
-  rewrite ssh_read_string_enc_nil by exact Hv. cbv beta iota.
+  rewrite ssh_read_string_enc by exact Hv. cbv beta iota.
+  rewrite Ht, Nat.eqb_refl.
   f_equal. f_equal. rewrite !app_length. lia.
 Qed.
 
@@ -552,29 +570,33 @@ Lemma ossh_parse_plain : forall o kdf pub priv pk,
 Proof.
   intros o kdf pub priv pk Hkd Hp Hv Hk. unfold parse_openssh_private, ossh_enc.
   rewrite prefix_of_app. cbn [negb]. rewrite drop_app_length.
-  rewrite ossh_unmarshal_enc; try assumption; try (apply fits32_small; cbn; lia).
+  rewrite <- (app_nil_r (ssh_string_enc priv)).
+  rewrite (ossh_unmarshal_enc (fx_ossh_tag all_fixed) (bs "none") kdf [] pub priv []); try assumption;
+    try (apply fits32_small; cbn; lia); [|reflexivity].
   cbn [bind oh_numkeys oh_pubkey oh_cipher]. rewrite N.eqb_refl. cbn [negb]. rewrite Hk.
   change (bytes_eqb (bs "none") (bs "none")) with true. cbv beta iota. reflexivity.
 Qed.
 
-Lemma ossh_parse_encrypted : forall o cipher kdf salt rounds pub priv pk,
+(* an encrypted key; for the AEAD ciphers the authentication tag follows the encrypted block *)
+Lemma ossh_parse_encrypted : forall o cipher kdf salt rounds pub priv (tag : bytes) pk,
   fits32 cipher -> fits32 kdf -> N.of_nat (length salt) < 4294967288 -> rounds < 4294967296 ->
   fits32 pub -> fits32 priv -> bytes_eqb cipher (bs "none") = false ->
+  length tag = ossh_auth_len cipher ->
   ssh_parse_public o pub = Ok pk ->
-  parse_openssh_private all_fixed o (ossh_enc cipher kdf (kdf_options_enc salt rounds) pub priv)
+  parse_openssh_private all_fixed o (ossh_enc cipher kdf (kdf_options_enc salt rounds) pub priv ++ tag)
   = Ok (Info (bs "OpenSSH private key (encrypted)")
           (ssh_public_attrs true pk [] ++ [(bs "Cipher", cipher); (bs "KDF", kdf)] ++
            [(bs "KDF rounds", dec_of_N rounds)]) []).
 Proof.
-  intros o cipher kdf salt rounds pub priv pk Hc Hk Hs Hr Hp Hv Hne Hpk.
+  intros o cipher kdf salt rounds pub priv tag pk Hc Hk Hs Hr Hp Hv Hne Ht Hpk.
   assert (Ho : fits32 (kdf_options_enc salt rounds)).
   { unfold fits32, kdf_options_enc. rewrite app_length, length_ssh_string_enc, length_N_to_be. lia. }
-  unfold parse_openssh_private, ossh_enc.
+  unfold parse_openssh_private, ossh_enc. rewrite <- !app_assoc.
   rewrite prefix_of_app. cbn [negb]. rewrite drop_app_length.
-  rewrite ossh_unmarshal_enc by assumption.
+  rewrite (ossh_unmarshal_enc (fx_ossh_tag all_fixed)) by assumption.
   cbn [bind oh_numkeys oh_pubkey oh_cipher oh_kdf oh_opts_off oh_opts_len]. rewrite N.eqb_refl. cbn [negb].
   rewrite Hpk, Hne. cbv beta iota. cbn [fx_kdf_opts fx_size all_fixed].
-  set (post := N_to_be 4 1 ++ ssh_string_enc pub ++ ssh_string_enc priv).
+  set (post := N_to_be 4 1 ++ ssh_string_enc pub ++ ssh_string_enc priv ++ tag).
   set (opts := kdf_options_enc salt rounds) in *.
   replace (ssh_string_enc cipher ++ ssh_string_enc kdf ++ ssh_string_enc opts ++ post)
     with ((ssh_string_enc cipher ++ ssh_string_enc kdf ++ N_to_be 4 (N.of_nat (length opts))) ++ opts ++ post)
@@ -637,30 +659,54 @@ Definition ssh1_sizes_ok (n e d qinv q p : N) (comment : bytes) : Prop :=
   bitlen n < 65536 /\ bitlen e < 65536 /\ bitlen d < 65536 /\ bitlen qinv < 65536 /\
   bitlen q < 65536 /\ bitlen p < 65536 /\ fits32 comment.
 
-Lemma ssh1_parse_enc : forall dec n e comment a b d qinv q p pad,
-  ssh1_sizes_ok n e d qinv q p comment ->
-  ssh1_parse dec (ssh1_enc 0 n e comment a b d qinv q p pad)
-  = Ok (S1Key (mk_ssh1 (be_min n) (be_min e) comment (be_min d) (be_min q) (be_min p))).
+(* the public half is read back from what the writer wrote, whatever the cipher type and whatever follows *)
+Lemma ssh1_parse_public : forall fixed dec cipher n e comment tail,
+  bitlen n < 65536 -> bitlen e < 65536 -> fits32 comment ->
+  ssh1_parse_gen fixed dec (ssh1_public_part cipher n e comment ++ tail) =
+  (let* r1 := (if cipher =? 3 then
+                 if negb (Nat.eqb (Nat.modulo (length tail) 8) 0) then Ok None
+                 else let* p := ssh1_decrypt dec tail in Ok (Some p)
+               else Ok (Some tail)) in
+   match r1 with
+   | None => Ok (S1Corrupted (be_min n) (be_min e) comment)
+   | Some r => ssh1_private_part (fixed && negb (cipher =? 0)) (be_min n) (be_min e) comment r
+   end).
 Proof.
-  intros dec n e comment a b d qinv q p pad (Hn & He & Hd & Hqi & Hq & Hp & Hc).
-  unfold ssh1_parse, ssh1_enc.
+  intros fixed dec cipher n e comment tail Hn He Hc.
+  unfold ssh1_parse_gen, ssh1_public_part. rewrite <- !app_assoc.
   rewrite app_length.
   destruct (Nat.ltb (length ssh1_header + _) (length ssh1_header)) eqn:El; [apply Nat.ltb_lt in El; lia|].
   unfold go_slice_to, go_slice_from. rewrite app_length, El. cbn [bind].
   rewrite take_app_length, bytes_eqb_refl, drop_app_length. cbn [negb].
   set (rest := ssh1_mpi_enc n ++ _).
-  replace ([0] ++ [0; 0; 0; 0] ++ N_to_be 4 (bitlen n) ++ rest)
-    with (([0] ++ [0; 0; 0; 0] ++ N_to_be 4 (bitlen n)) ++ rest) by now rewrite <- !app_assoc.
-  replace 9%nat with (length ([0] ++ [0; 0; 0; 0] ++ N_to_be 4 (bitlen n)))
+  replace ([cipher] ++ [0; 0; 0; 0] ++ N_to_be 4 (bitlen n) ++ rest)
+    with (([cipher] ++ [0; 0; 0; 0] ++ N_to_be 4 (bitlen n)) ++ rest) by now rewrite <- !app_assoc.
+  replace 9%nat with (length ([cipher] ++ [0; 0; 0; 0] ++ N_to_be 4 (bitlen n)))
     by (rewrite !app_length, length_N_to_be; reflexivity).
   rewrite read_full_app. cbn [bind app nth]. unfold rest.
   rewrite ssh1_read_mpint_raw_enc by exact Hn. cbn [bind].
   rewrite ssh1_read_mpint_raw_enc by exact He. cbn [bind].
   rewrite ssh1_read_string_enc by exact Hc. cbn [bind].
-  change (0 =? 3) with false. cbv beta iota.
+  reflexivity.
+Qed.
+
+Lemma ssh1_enc_split : forall cipher n e comment a b d qinv q p pad,
+  ssh1_enc cipher n e comment a b d qinv q p pad
+  = ssh1_public_part cipher n e comment ++
+    ([a; b; a; b] ++ ssh1_mpi_enc d ++ ssh1_mpi_enc qinv ++ ssh1_mpi_enc q ++ ssh1_mpi_enc p ++ pad).
+Proof. intros. unfold ssh1_enc, ssh1_public_part. now rewrite <- !app_assoc. Qed.
+
+(* the private half as the writer wrote it is read back, strictly or leniently *)
+Lemma ssh1_private_part_enc : forall l n e comment a b d qinv q p pad,
+  bitlen d < 65536 -> bitlen qinv < 65536 -> bitlen q < 65536 -> bitlen p < 65536 ->
+  ssh1_private_part l n e comment
+    ([a; b; a; b] ++ ssh1_mpi_enc d ++ ssh1_mpi_enc qinv ++ ssh1_mpi_enc q ++ ssh1_mpi_enc p ++ pad)
+  = Ok (S1Key (mk_ssh1 n e comment (be_min d) (be_min q) (be_min p))).
+Proof.
+  intros l n e comment a b d qinv q p pad Hd Hqi Hq Hp. unfold ssh1_private_part.
   change ([a; b; a; b] ++ ssh1_mpi_enc d ++ ssh1_mpi_enc qinv ++ ssh1_mpi_enc q ++ ssh1_mpi_enc p ++ pad)
     with (a :: b :: a :: b :: ssh1_mpi_enc d ++ ssh1_mpi_enc qinv ++ ssh1_mpi_enc q ++ ssh1_mpi_enc p ++ pad).
-  cbn [bind]. rewrite read_full_4. cbn [nth].
+  rewrite read_full_4. cbn [nth].
   rewrite !N.eqb_refl. cbn [andb negb].
   rewrite ssh1_read_mpint_raw_enc by exact Hd. cbn [bind].
   rewrite ssh1_read_mpint_raw_enc by exact Hqi. cbn [bind].
@@ -668,6 +714,88 @@ Proof.
   rewrite ssh1_read_mpint_raw_enc by exact Hp. cbn [bind].
   reflexivity.
 Qed.
+
+Lemma ssh1_parse_enc : forall dec n e comment a b d qinv q p pad,
+  ssh1_sizes_ok n e d qinv q p comment ->
+  ssh1_parse dec (ssh1_enc 0 n e comment a b d qinv q p pad)
+  = Ok (S1Key (mk_ssh1 (be_min n) (be_min e) comment (be_min d) (be_min q) (be_min p))).
+Proof.
+  intros dec n e comment a b d qinv q p pad (Hn & He & Hd & Hqi & Hq & Hp & Hc).
+  unfold ssh1_parse. rewrite ssh1_enc_split, ssh1_parse_public by assumption.
+  change (0 =? 3) with false. cbv beta iota. cbn [bind].
+  now apply ssh1_private_part_enc.
+Qed.
+
+(* ---------- every cipher type: the public half is described whatever follows it ---------- *)
+
+(* whatever the private half holds and whatever 3DES returns, a file with a non-zero cipher type
+   yields either the key or "corrupted" with the public half, never an error *)
+Lemma ssh1_private_part_lenient : forall n e comment r,
+  ssh1_private_part true n e comment r = Ok (S1Corrupted n e comment)
+  \/ exists d q p, ssh1_private_part true n e comment r = Ok (S1Key (mk_ssh1 n e comment d q p)).
+Proof.
+  intros n e comment r. unfold ssh1_private_part.
+  destruct (read_full 4 r) as [[abab r5]|e'|p']; [|now left|now left].
+  destruct (negb _); [now left|].
+  destruct (ssh1_read_mpint_raw r5) as [[d r6]|?|?] eqn:E1; cbn [bind]; [|now left|].
+  2:{ exfalso. eapply ssh1_read_mpint_raw_not_panic; exact E1. }
+  destruct (ssh1_read_mpint_raw r6) as [[qi r7]|?|?] eqn:E2; cbn [bind]; [|now left|].
+  2:{ exfalso. eapply ssh1_read_mpint_raw_not_panic; exact E2. }
+  destruct (ssh1_read_mpint_raw r7) as [[q r8]|?|?] eqn:E3; cbn [bind]; [|now left|].
+  2:{ exfalso. eapply ssh1_read_mpint_raw_not_panic; exact E3. }
+  destruct (ssh1_read_mpint_raw r8) as [[p r9]|?|?] eqn:E4; cbn [bind]; [|now left|].
+  2:{ exfalso. eapply ssh1_read_mpint_raw_not_panic; exact E4. }
+  right. now exists d, q, p.
+Qed.
+
+Lemma go_index_public_part : forall cipher n e comment tail,
+  go_index (ssh1_public_part cipher n e comment ++ tail) (length ssh1_header) = Ok cipher.
+Proof.
+  intros. unfold go_index, ssh1_public_part. rewrite <- !app_assoc.
+  rewrite app_length. cbn [app length].
+  destruct (Nat.ltb _ _) eqn:El; [|apply Nat.ltb_ge in El; lia].
+  now rewrite app_nth2, Nat.sub_diag by lia.
+Qed.
+
+Lemma ssh1_encrypted_described : forall dec cipher n e comment tail,
+  cipher <> 0 -> bitlen n < 65536 -> bitlen e < 65536 -> fits32 comment ->
+  ssh1_private_key all_fixed dec (ssh1_public_part cipher n e comment ++ tail)
+  = Ok (Info (bs "SSH v1 key (encrypted)")
+          (match comment with [] => [] | _ :: _ => [(bs "Comment", comment)] end ++
+           [(bs "Algorithm", bs "RSA"); (bs "Size", dec_of_N (bitlen n) ++ bs " bits")]) []).
+Proof.
+  intros dec cipher n e comment tail Hc Hn He Hcm.
+  assert (Hz : (cipher =? 0) = false) by now apply N.eqb_neq.
+  assert (Hout : ssh1_parse_gen true dec (ssh1_public_part cipher n e comment ++ tail) = Ok (S1Corrupted (be_min n) (be_min e) comment)
+                 \/ exists d q p, ssh1_parse_gen true dec (ssh1_public_part cipher n e comment ++ tail)
+                                  = Ok (S1Key (mk_ssh1 (be_min n) (be_min e) comment d q p))).
+  { rewrite ssh1_parse_public by assumption. rewrite Hz. cbn [negb andb].
+    destruct (cipher =? 3).
+    - destruct (negb (Nat.eqb (Nat.modulo (length tail) 8) 0)) eqn:Em; cbn [bind]; [now left|].
+      unfold ssh1_decrypt. apply Bool.negb_false_iff in Em. rewrite Em. cbn [bind].
+      apply ssh1_private_part_lenient.
+    - cbn [bind]. apply ssh1_private_part_lenient. }
+  unfold ssh1_private_key. cbn [fx_ssh1_cipher fx_ssh1_enc fx_size all_fixed].
+  destruct Hout as [H|(d & q & p & H)]; rewrite H; cbn [bind]; rewrite go_index_public_part; cbn [bind]; rewrite Hz;
+    unfold ssh1_public_attrs, s1_n; cbn [s1_n_raw s1_comment]; rewrite be_to_N_be_min;
+    cbn [crypto_public_attrs]; unfold rsa_public_attrs; rewrite zbitlen_of_N; reflexivity.
+Qed.
+
+(* the code before the repairs S1/S2: an IDEA key whose ciphertext starts with a repeated octet pair gets
+   no description; one whose ciphertext reads as integers, and a 3DES key under the empty passphrase (the
+   identity stands for a decryption that succeeds), are labelled as stored in the clear *)
+Definition fx_before_s : fixes := mk_fixes true true true true true false true.
+Definition s1_tail_noise : bytes := [65; 66; 65; 66; 255; 255; 1; 2].
+Definition s1_tail_zeros : bytes := repeat 0 16.
+Lemma S1_witness :
+  is_ok (ssh1_private_key fx_before_s (fun x => x) (ssh1_public_part 1 (2 ^ 258 + 5) 65537 (bs "idea") ++ s1_tail_noise)) = false
+  /\ ssh1_private_key fx_before_s (fun x => x) (ssh1_public_part 1 (2 ^ 258 + 5) 65537 (bs "idea") ++ s1_tail_zeros)
+     = Ok (Info (bs "SSH v1 key") [(bs "Comment", bs "idea"); (bs "Algorithm", bs "RSA"); (bs "Size", bs "259 bits")] [])
+  /\ ssh1_private_key fx_before_s (fun x => x) (ssh1_public_part 3 (2 ^ 258 + 5) 65537 (bs "3des") ++ s1_tail_zeros)
+     = Ok (Info (bs "SSH v1 key") [(bs "Comment", bs "3des"); (bs "Algorithm", bs "RSA"); (bs "Size", bs "259 bits")] [])
+  /\ ssh1_private_key all_fixed (fun x => x) (ssh1_public_part 1 (2 ^ 258 + 5) 65537 (bs "idea") ++ s1_tail_noise)
+     = Ok (Info (bs "SSH v1 key (encrypted)") [(bs "Comment", bs "idea"); (bs "Algorithm", bs "RSA"); (bs "Size", bs "259 bits")] []).
+Proof. repeat split; vm_compute; reflexivity. Qed.
 
 (* ---------- OpenPGP key packet ---------- *)
 
@@ -789,6 +917,7 @@ Record meta := mk_meta {
   m_comment : bytes;
   m_cipher : bytes; m_kdf : bytes; m_salt : bytes; m_rounds : N;       (* OpenSSH; cipher "none" = in the clear *)
   m_private : bytes;                                                    (* OpenSSH private block *)
+  m_tag : bytes;                                   (* OpenSSH: authentication tag after the block (AEAD ciphers) *)
   m_ppk_version : Z; m_ppk_encryption : bytes; m_ppk_kdf : bytes;
   m_ppk_memory : Z; m_ppk_passes : Z; m_ppk_parallelism : Z;
   m_check_a : N; m_check_b : N; m_d : N; m_qinv : N; m_q : N; m_p : N; m_pad : bytes;  (* SSH1 private half *)
@@ -849,7 +978,7 @@ Definition describe_fx (fx : fixes) (lib : ssh_oracle) (dec : bytes -> bytes) (c
       end
   | COpenSshPrivate, _ =>
       match blob_of k with
-      | Some b => parse_openssh_private fx lib (ossh_enc (m_cipher m) (m_kdf m) (kdf_opts_of m) b (m_private m))
+      | Some b => parse_openssh_private fx lib (ossh_enc (m_cipher m) (m_kdf m) (kdf_opts_of m) b (m_private m) ++ m_tag m)
       | None => Err "not an SSH key"
       end
   | CPutty, _ =>
@@ -916,7 +1045,8 @@ Definition fits (c : container) (k : key) (m : meta) : Prop :=
       key_fits_ssh k /\ match k with KRsa _ e => e_ok e | _ => True end /\
       fits32 (m_cipher m) /\ fits32 (m_kdf m) /\ N.of_nat (length (m_salt m)) < 4294967288 /\
       m_rounds m < 4294967296 /\ fits32 (m_private m) /\
-      match blob_of k with Some b => fits32 b | None => True end
+      match blob_of k with Some b => fits32 b | None => True end /\
+      length (m_tag m) = ossh_auth_len (m_cipher m)
   | CPutty => key_fits_ssh k
   | CSsh1 => match k with KRsa n e => ssh1_sizes_ok n e (m_d m) (m_qinv m) (m_q m) (m_p m) (m_comment m) | _ => True end
   | COpenPgp =>   (* 16-bit MPI bit counts; the reader refuses exponents of more than three octets *)
@@ -1258,16 +1388,17 @@ Proof.
     rewrite Hp. cbn [bind]. rewrite (ssh_public_attrs_shape _ _ _ _ Ha).
     cbn [description_of meta_before meta_after]. now rewrite app_nil_r.
   - (* OpenSSH private key *)
-    cbn [carries] in Hc. cbn [fits] in Hf. destruct Hf as (Hf & He & Hci & Hkd & Hsalt & Hr & Hpriv & Hb).
+    cbn [carries] in Hc. cbn [fits] in Hf. destruct Hf as (Hf & He & Hci & Hkd & Hsalt & Hr & Hpriv & Hb & Htag).
     unfold describe, describe_fx. cbn [fx_size all_fixed]. destruct (blob_of k) as [b|] eqn:Eb.
     2:{ destruct k; cbn [ssh_key] in Hc; try discriminate. cbn [blob_of] in Eb. destruct c; cbn in *; discriminate. }
     destruct (ssh_parse_key lib k b Hc Hf He Hacc Eb) as [pk [Hp Ha]].
     unfold kdf_opts_of. cbn [description_of meta_before meta_after].
     destruct (bytes_eqb (m_cipher m) (bs "none")) eqn:En.
-    + apply bytes_eqb_eq in En. rewrite En.
+    + apply bytes_eqb_eq in En. rewrite En in *.
+      destruct (m_tag m); [|discriminate]. rewrite app_nil_r.
       rewrite (ossh_parse_plain lib (m_kdf m) b (m_private m) _ Hkd Hb Hpriv Hp).
       rewrite (ssh_public_attrs_shape _ _ _ _ Ha). cbn [comment_attr app]. now rewrite app_nil_r.
-    + rewrite (ossh_parse_encrypted lib _ _ _ _ b _ _ Hci Hkd Hsalt Hr Hb Hpriv En Hp).
+    + rewrite (ossh_parse_encrypted lib _ _ _ _ b _ _ _ Hci Hkd Hsalt Hr Hb Hpriv En Htag Hp).
       rewrite (ssh_public_attrs_shape _ _ _ _ Ha). cbn [comment_attr app]. reflexivity.
   - (* PuTTY *)
     cbn [carries] in Hc. cbn [fits] in Hf.
@@ -1282,7 +1413,9 @@ Proof.
     + cbn [app]. now rewrite <- !app_assoc.
   - (* SSH1 *)
     destruct k as [n e| | | | | |]; try discriminate. cbn [fits] in Hf. unfold describe; cbn [describe_fx].
-    unfold ssh1_private_key. rewrite (ssh1_parse_enc dec n e _ _ _ _ _ _ _ _ Hf). cbn [bind].
+    unfold ssh1_private_key. cbn [fx_ssh1_cipher all_fixed]. fold (ssh1_parse dec).
+    rewrite (ssh1_parse_enc dec n e _ _ _ _ _ _ _ _ Hf). cbn [bind].
+    rewrite ssh1_enc_split, go_index_public_part. cbn [bind]. change (0 =? 0) with true. cbv beta iota.
     unfold ssh1_public_attrs, s1_n. cbn [s1_n_raw s1_comment fx_size all_fixed].
     rewrite be_to_N_be_min. cbn [description_of meta_before meta_after key_attrs crypto_public_attrs].
     fold (comment_attr (m_comment m)). now rewrite app_nil_r.
@@ -1511,9 +1644,9 @@ Proof.
   end.
 Qed.
 
-Lemma ossh_unmarshal_no_panic : forall rem s, ossh_unmarshal rem <> Panic s.
+Lemma ossh_unmarshal_no_panic : forall tagged rem s, ossh_unmarshal tagged rem <> Panic s.
 Proof.
-  intros rem s. unfold ossh_unmarshal.
+  intros tagged rem s. unfold ossh_unmarshal.
   repeat match goal with
   | |- context [match ?x with _ => _ end] => destruct x; try discriminate
   end.
@@ -1523,8 +1656,8 @@ Lemma openssh_private_no_panic : forall lib der s, parse_openssh_private all_fix
 Proof.
   intros lib der s. unfold parse_openssh_private.
   destruct (negb (prefix_of ossh_magic der)); [discriminate|].
-  destruct (ossh_unmarshal (drop (length ossh_magic) der)) as [w|e|p] eqn:E; cbn [bind];
-    [|discriminate|exfalso; exact (ossh_unmarshal_no_panic _ p E)].
+  destruct (ossh_unmarshal (fx_ossh_tag all_fixed) (drop (length ossh_magic) der)) as [w|e|p] eqn:E; cbn [bind];
+    [|discriminate|exfalso; exact (ossh_unmarshal_no_panic _ _ p E)].
   destruct (negb (oh_numkeys w =? 1)); [discriminate|].
   destruct (ssh_parse_public lib (oh_pubkey w)) as [pk|e|p] eqn:Ep;
     [|discriminate|exfalso; exact (ssh_parse_public_no_panic lib _ p Ep)].
@@ -1555,7 +1688,7 @@ Qed.
 (* ================================================================== *)
 
 Definition meta0 : meta :=
-  mk_meta (bs "user@host") (bs "none") (bs "none") [] 0 [1; 2; 3; 4]
+  mk_meta (bs "user@host") (bs "none") (bs "none") [] 0 [1; 2; 3; 4] []
           3 (bs "none") [] 0 0 0 7 9 12345 77 251 241 [] 1500000000.
 
 Definition f26_n : N := 2 ^ 2046 + 12345.
@@ -1574,9 +1707,9 @@ Proof. repeat split; vm_compute; reflexivity. Qed.
 
 (* F27 / N1: the PPK KDF line said MB, and was shown for version-2 files that store no KDF *)
 Definition meta_ppk3 : meta :=
-  mk_meta (bs "c") (bs "none") (bs "none") [] 0 [] 3 (bs "aes256-cbc") (bs "Argon2id") 8192 13 1 0 0 0 0 0 0 [] 0.
+  mk_meta (bs "c") (bs "none") (bs "none") [] 0 [] [] 3 (bs "aes256-cbc") (bs "Argon2id") 8192 13 1 0 0 0 0 0 0 [] 0.
 Definition meta_ppk2 : meta :=
-  mk_meta (bs "c") (bs "none") (bs "none") [] 0 [] 2 (bs "aes256-cbc") [] 0 0 0 0 0 0 0 0 0 [] 0.
+  mk_meta (bs "c") (bs "none") (bs "none") [] 0 [] [] 2 (bs "aes256-cbc") [] 0 0 0 0 0 0 0 0 0 [] 0.
 Definition ed_pk : bytes := repeat 7 32.
 
 Lemma F27_witness :
@@ -1616,12 +1749,28 @@ Lemma N2_witness :
              [(bs "Comment", bs "enc"); (bs "Algorithm", bs "RSA"); (bs "Size", bs "1024 bits")] []).
 Proof. split; vm_compute; reflexivity. Qed.
 
+(* S3: an OpenSSH private key under chacha20-poly1305@openssh.com: the 16-octet tag follows the block *)
+Definition fx_before_s3 : fixes := mk_fixes true true true true true true false.
+Definition meta_aead : meta :=
+  mk_meta (bs "c") (bs "chacha20-poly1305@openssh.com") (bs "bcrypt") (repeat 5 16) 7 (repeat 9 64) (repeat 3 16)
+          3 (bs "none") [] 0 0 0 0 0 0 0 0 0 [] 0.
+Lemma S3_witness :
+  is_ok (describe_fx fx_before_s3 lib_yes (fun x => x) COpenSshPrivate (KEd25519 ed_pk) meta_aead) = false
+  /\ describe lib_yes (fun x => x) COpenSshPrivate (KEd25519 ed_pk) meta_aead
+     = Ok (Info (bs "OpenSSH private key (encrypted)")
+             [(bs "Type", bs "ssh-ed25519"); (bs "Algorithm", bs "EdDSA"); (bs "Curve", bs "Ed25519");
+              (bs "Cipher", bs "chacha20-poly1305@openssh.com"); (bs "KDF", bs "bcrypt"); (bs "KDF rounds", bs "7")] [])
+  /\ carries COpenSshPrivate (KEd25519 ed_pk) = true
+  /\ ossh_auth_len (bs "chacha20-poly1305@openssh.com") = 16%nat /\ ossh_auth_len (bs "aes256-gcm@openssh.com") = 16%nat
+  /\ ossh_auth_len (bs "aes128-gcm@openssh.com") = 16%nat /\ ossh_auth_len (bs "aes256-ctr") = 0%nat.
+Proof. repeat split; vm_compute; reflexivity. Qed.
+
 (* ================================================================== *)
 (* the hypotheses of the theorems are met by ordinary keys             *)
 (* ================================================================== *)
 
 Definition meta_enc : meta :=
-  mk_meta (bs "user@host") (bs "aes256-ctr") (bs "bcrypt") (repeat 5 16) 16 (repeat 9 64)
+  mk_meta (bs "user@host") (bs "aes256-ctr") (bs "bcrypt") (repeat 5 16) 16 (repeat 9 64) []
           3 (bs "aes256-cbc") (bs "Argon2id") 8192 13 1 7 9 12345 77 251 241 [0; 0] 1500000000.
 
 Ltac decide_closed := first [exact I | (vm_compute; reflexivity) | (vm_compute; intros; discriminate)].
